@@ -6,6 +6,8 @@ CONSTANTS
   Entries <- MCEntries
   Random <- MCRandom
   Seedable <- MCSeedRand
+  Backends <- MCOneBackend
+  InitBackend = "core"
   Objs <- MCNoObjs
   ObjSeed <- MCObjSeed
   ObjEntries <- MCSeedRand
@@ -17,6 +19,7 @@ INVARIANT TwinGeneratorsAgree
 INVARIANT DeterministicNoSeed
 INVARIANT ReseedReproducible
 PROPERTY IntSeedLeavesGlobal
+PROPERTY SwitchLeavesStreams
 PROPERTY ObjSeedLeavesGlobal
 PROPERTY IntSeedLeavesGenerators
 PROPERTY GenCallOwnStreamOnly
